@@ -33,6 +33,9 @@ type Piece struct {
 type HD struct {
 	Body  string // the lines, each ending in "\n"
 	Delim string // the delimiter line without its newline (incl. leading tabs for <<-)
+	// DelimPrefix is written in front of the delimiter line: a line
+	// continuation ("\\\n") on a line of its own, which joins with the delimiter line
+	DelimPrefix string
 	// expectations, used by C08
 	Op        string   // "<<" or "<<-"
 	WordSkel  string   // skeleton of the delimiter word
@@ -299,6 +302,7 @@ func (r *renderer) stream(s *Stream, top bool) {
 	flush := func() {
 		for _, h := range pending {
 			r.b.WriteString(h.Body)
+			r.b.WriteString(h.DelimPrefix)
 			r.b.WriteString(h.Delim)
 			r.b.WriteByte('\n')
 		}
@@ -324,7 +328,8 @@ func (r *renderer) stream(s *Stream, top bool) {
 		if prev == nil && !top {
 			b.Linebreak = true // a compound list starts with "linebreak"
 		}
-		b.BeforeNewline = next != nil && next.Kind == KNewline || next == nil && top
+		// (inside backquotes a comment ends at the closing backquote)
+		b.BeforeNewline = next != nil && next.Kind == KNewline || next == nil && top || next == nil && s.Open == "`" && prev != nil
 		if next == nil && top && prev != nil && prev.Kind == KNewline {
 			// the newline that ends the complete command: whatever follows
 			// belongs to the next command
